@@ -1,14 +1,15 @@
 #!/bin/sh
-# meta/selftest.sh [--tier quick|thorough] : every seeded change must be caught by the check of the property it breaks.
-# Applies each seeded/<id>/patch.diff to /repo in turn (never concurrently with other checks), restores /repo and the evidence.
+# meta/selftest.sh : every seeded change must be caught by the check of the property it breaks (quick tier).
+# Uses meta/seedrun_iso.sh (private mount namespace, needs root), so /repo itself is never modified.
 cd "$(dirname "$0")/.." || exit 2
 fail=0
 for d in seeded/*/; do
   id=$(basename "$d")
-  out=$(python3 meta/seedrun.py "$id" "$@" 2>&1 | tail -1)
+  out=$(meta/seedrun_iso.sh "$id" 2>&1 | tail -1)
   case "$out" in
-    *"exit=1"*) echo "caught   $id :: $(echo "$out" | cut -c1-160)";;
-    *) echo "MISSED   $id :: $out"; fail=1;;
+    *"exit=1"*) echo "caught   $(echo "$out" | cut -c1-200)";;
+    *) echo "MISSED   $out"; fail=1;;
   esac
 done
+rm -rf /var/tmp/zv-seed-work
 exit $fail
